@@ -1285,6 +1285,32 @@ def _jschunk_rest(cx, rep, p):
     rep.decide(okb, 'bulk lines', bl[0] if bl else bulk, 'bulk reading processes every line', 'bulk reading does not process every line')
     # the empty string after the final line break is dropped once: further empty lines at the end are records of their own
     pops = [c for c in walk_no_nested(bulk) if isinstance(c, ast.Call) and isinstance(c.func, ast.Attribute) and c.func.attr == 'pop' and not c.args]
+    if not pops:
+        # the final line break may be cut off the text before splitting instead: exactly one break (LF, CR or CRLF), never a run of them
+        from .. import regexlang as R
+        trims = [c for c in walk_no_nested(bulk) if isinstance(c, ast.Call) and isinstance(c.func, ast.Attribute) and c.func.attr == 'replace' and len(c.args) == 2 and isinstance(c.args[0], ast.Call) and dotted(c.args[0].func) == '__regex__' and isinstance(c.args[1], ast.Constant) and c.args[1].value == '']
+        trims = [c for c in trims if c.args[0].args[0].value.endswith('$')]
+        ws = [c for c in walk_no_nested(bulk) if isinstance(c, ast.Call) and isinstance(c.func, ast.Attribute) and c.func.attr in ('trimEnd', 'trimRight', 'trim') and not c.args
+              and any(isinstance(pc, ast.Call) and (call_name(pc) or '').endswith('split_lines') and any(y is c for a in pc.args for y in ast.walk(a)) for pc in walk_no_nested(bulk))]
+        if ws:
+            rep.violated('bulk trailing line', ws[0], 'the text is cut with {}() before it is split into lines: every trailing blank, TAB and line break goes, so trailing empty fields of the last record and trailing empty records are lost in bulk mode only'.format(ws[0].func.attr))
+        elif not trims:
+            rep.undecided('bulk trailing line', bulk, 'how the empty string after the final line break is dropped was not recognised')
+        for c in trims:
+            pat = c.args[0].args[0].value
+            try:
+                lang = R.Lang(pat[:-1], flavour='js')
+                many = [w for w in ('\n\n', '\r\n\r\n', '\r\r') if R.accepts(lang, w)]
+                one = [w for w in ('\n', '\r', '\r\n') if R.accepts(lang, w)]
+            except R.Unsupported as e:
+                rep.undecided('bulk trailing line', c, str(e))
+                continue
+            if many:
+                rep.violated('bulk trailing line', c, 'the text is trimmed with `{}`, which removes a whole run of line breaks ({!r}): a table whose last records are empty (single-column input ending in blank lines) loses them in bulk mode, while stream mode keeps them'.format(pat, many[0]))
+            elif len(one) == 3:
+                rep.holds('bulk trailing line', c, 'exactly one final line break is removed before splitting')
+            else:
+                rep.undecided('bulk trailing line', c, 'trimming pattern `{}` does not cover LF, CR and CRLF'.format(pat))
     for c in pops:
         par = c
         while par is not None and not isinstance(par, (ast.While, ast.For, ast.If, ast.FunctionDef)):
